@@ -88,10 +88,10 @@ theorem ref_of_grow {fc : FC} {a : Abs} (r : Ref fc a) {P : Root → Prop} {pr' 
   { spe := r.spe, nodes := hn, votes := r.votes, balances := r.balances, justified := r.justified,
     finalized := r.finalized, pin := r.pin, sink := r.sink.trans g.sink_eq.symm, clean := r.clean,
     jE := g.jEpoch_eq.trans r.jE, fE := g.fEpoch_eq.trans r.fE, fresh := r.fresh,
-    next_in := fun v hv => (r.next_in v hv).imp id (fun h => by
+    next_in := fun v hv => (r.next_in v hv).imp id (fun h => h.imp (fun h => by
       obtain ⟨i, hi⟩ := Option.isSome_iff_exists.1 h
       show (aGet pr'.indices v.next).isSome
-      rw [g.idx_old _ i hi]; rfl),
+      rw [g.idx_old _ i hi]; rfl) id),
     cur_le := r.cur_le, settled := r.settled }
 
 /-! ## appending one node -/
